@@ -207,6 +207,37 @@ func init() {
 		}
 		return string(a) == string(b)
 	})
+	// vyes / vns::<name>: one function (true iff the text of the first argument is "yes") under a plain name and, through
+	// RegisterCondFnNS, under base names that look like built-ins (Go-only checks of C02)
+	vyes := func(ctx *dyntpl.Ctx, args []any) bool {
+		if len(args) == 0 {
+			return false
+		}
+		b, err := x2bytes.ToBytes(nil, args[0])
+		return err == nil && string(b) == "yes"
+	}
+	dyntpl.RegisterCondFn("vyes", vyes)
+	for _, n := range []string{"len", "cap", "lenEq0", "veq", "default"} {
+		dyntpl.RegisterCondFnNS("vns", n, vyes)
+	}
+	// registrations through the namespaced / aliased entry points (Go-only checks of C11, C18, C19)
+	dyntpl.RegisterGlobal("vgplain", "vgalias", "G<1>")
+	dyntpl.RegisterGlobalNS("vg", "greeting", "hi", "G<2>")
+	dyntpl.RegisterGlobalNS("vnamespace_longer_than_thirty_two_bytes", "globalWithAnEquallyLongName", "", "GL")
+	vcatFn := dyntpl.GetModFn("vcat")
+	dyntpl.RegisterModFnNS("vns", "cat", "c", vcatFn)
+	dyntpl.RegisterModFn("vcatplain", "vcp", vcatFn)
+	dyntpl.RegisterModFnNS("vnamespace_longer_than_thirty_two_bytes", "modifierWithAnEquallyLongName", "", func(ctx *dyntpl.Ctx, buf *any, val any, args []any) error { return nil })
+	dyntpl.RegisterCondFnNS("vnamespace_longer_than_thirty_two_bytes", "helperWithAnEquallyLongName", func(ctx *dyntpl.Ctx, args []any) bool { return len(args) > 0 })
+	// vdeferc(tag): a CONDITION helper that defers a function (true)
+	dyntpl.RegisterCondFn("vdeferc", func(ctx *dyntpl.Ctx, args []any) bool {
+		if t, ok := argInt(args); ok {
+			evAdd(fmt.Sprintf("regc%d", t))
+			ctx.Defer(func() error { evAdd(fmt.Sprintf("ranc%d", t)); return nil })
+		}
+		return true
+	})
+	dyntpl.RegisterVarInsPair("vpairvar", testobj_ins.TestFinanceInspector{})
 	dyntpl.RegisterCondFn("vtrue", func(ctx *dyntpl.Ctx, args []any) bool { return true })
 	dyntpl.RegisterCondFn("vfalse", func(ctx *dyntpl.Ctx, args []any) bool { return false })
 	// vok(a, …): the text of the first argument as a byte string, ok iff it is non-empty
